@@ -12,6 +12,8 @@ import numpy as np
 
 from vmon.core import to_numpy
 
+TECHNIQUE = ('runtime monitoring: a sampling probe on the trivialization entry points computes the autograd Jacobian of the real map at every observed unbatched float64 theta and decides its numerical rank by a relative-gap criterion; verdict per configuration over all generic draws')
+LEVEL_TEXT = ('Exploration by runtime monitoring: Jacobian ranks observed at generic random points (and at thetas visited by L-BFGS) for every chart/method/field/dim/rank configuration, compared with the manifold dimension from the statement. Rank at non-generic points is out of reach.')
 RULE = ('cases = (map, method option, field, dim, rank, theta draw) with theta ~ N(0,1)*{0.5,1} (generic points), dims 2..4 (quick) / 2..5 '
         '(thorough), all ranks, real and complex, every method option; 3 (quick) / 8 (thorough) draws per configuration plus thetas visited by '
         'L-BFGS drivers. A draw is judged only when the singular values show a clean gap (s_rank/s_0>1e-5 and s_rank+1/s_0<1e-9), otherwise it is '
